@@ -307,6 +307,17 @@ def clause_d(repo, chk):
             if not isinstance(so.attrs.get("func"), str):
                 raise AnalysisError("Bound.__init__(a=%s, b=%s) does not set a formula text: %r" % (av, bv, so.attrs.get("func")))
             table[(ca, cb)] = so.attrs["func"]
+    # a limit of exactly 0 is a limit: the transform chosen for (0, None), (None, 0), (0, 2), (-2, 0) must be the one
+    # chosen for non-zero limits of the same kind
+    for av, bv, kind in ((sp.Integer(0), None, ("set", None)), (None, sp.Integer(0), (None, "set")), (sp.Integer(0), sp.Integer(2), ("set", "set")), (sp.Integer(-2), sp.Integer(0), ("set", "set"))):
+        try:
+            so0 = run_init(av, bv)
+        except (Unmodelled, Raised) as e:
+            raise AnalysisError("Bound.__init__ not interpretable for a=%s, b=%s: %s" % (av, bv, e))
+        same = so0.attrs.get("func") == table[kind]
+        chk.instance("D-bound", "bound(a=%s, b=%s) uses the transform of its kind `%s`: %s" % (av, bv, table[kind], same))
+        if not same:
+            chk.violation("D-bound", init.key, "zero-limit:a=%s,b=%s" % (av, bv), "Bound(%s, %s) chooses the transform `%s` instead of `%s`: a limit of exactly 0 is treated as absent, so a transform-based minimiser can cross it" % (av, bv, so0.attrs.get("func"), table[kind]), file=VAR, line=init.lineno)
     # a > b must be rejected
     try:
         run_init(sp.Integer(2), sp.Integer(1))
